@@ -444,7 +444,8 @@ class DictArithmetic(dict):
 
         """
         if isinstance(other, dict):
-            for k, v in other.items():
+            # tuple so that ``d -= d`` doesn't change d while iterating it
+            for k, v in tuple(other.items()):
                 self[k] -= v
         else:
             self[()] -= other
